@@ -411,6 +411,29 @@ def r6(rr, repo):
                     all(any(isinstance(a, ast.Call) and U(a.func) in ('hide_uri_users_and_pwds', 'hide_uri_pwds') for a in ancestors_of(u) if a is not c) for u in uses)
                 rr.ob(f'{fname}: a caught exception is logged through the mask', masked, mod, c, witness=U(c)[:100], key=f'exc-logged-masked|{fname}|{U(c)[:50]}')
     rr.floor('log calls of caught exception objects in Filter.run / DLCache.ensure', len(sites), 3)
+    # ... and where the library words its error with a PIECE of the address (pyzmq: 'No such file or directory for ipc path "user:pw@/run/pipes/out"' - no scheme left for the mask to anchor
+    # on), the error is replaced where it arises: sockets are bound / connected through a wrapper that re-raises with the masked address and none of the library's own text
+    zmod = repo.module('openfilter/filter_runtime/zeromq.py')
+    direct = [c for c in q.calls_in(zmod.tree) if isinstance(c.func, ast.Attribute) and c.func.attr in ('bind', 'connect') and U(c.func.value).split('.')[-1] in ('pub', 'pull', 'push', 'sub', 'sock', 'socket')]
+    wrapped = [c for c in q.calls_in(zmod.tree) if c.args and isinstance(c.args[0], ast.Attribute) and c.args[0].attr in ('bind', 'connect') and isinstance(c.func, ast.Name)]
+    rr.floor('socket bind / connect sites in zeromq.py', len(direct) + len(wrapped), 4, zmod, zmod.tree)
+    for c in direct:
+        rr.ob('a socket is bound / connected through the wrapper that masks what the library says about the address', False, zmod, c, witness=U(c)[:80], key=f'attach-errors-masked|{U(c.func.value).split(".")[-1]}.{c.func.attr}')
+    helpers = {U(c.func) for c in wrapped}
+    for hn in sorted(helpers):
+        try:
+            _, hf = repo.find(f'openfilter/filter_runtime/zeromq.py::{hn}')
+        except Unresolved:
+            rr.unresolved(f'the wrapper {hn} the sockets are attached through was not found', zmod, wrapped[0], key='attach-wrapper')
+            continue
+        hs = [h for t in ast.walk(hf) if isinstance(t, ast.Try) for h in t.handlers if h.type is not None and 'ZMQError' in U(h.type) or (isinstance(t, ast.Try) and False)]
+        raises = [r for h in hs for r in ast.walk(h) if isinstance(r, ast.Raise) and r.exc is not None]
+        ok = bool(raises) and all(any(isinstance(x, ast.Call) and U(x.func) in ('hide_uri_users_and_pwds', 'hide_uri_pwds') for x in ast.walk(r.exc)) and
+                                   not any((isinstance(x, ast.Name) and x.id == h.name and not (isinstance(parent(x), ast.Attribute) and parent(x).attr == 'errno')) for h in hs for x in ast.walk(r.exc)) for r in raises)
+        rr.ob(f'{hn}: a failed bind / connect is re-raised with the masked address, without the library\'s wording', ok, zmod, hf,
+              witness=U(raises[0])[:140] if raises else 'no handler for zmq.ZMQError that raises', key='attach-wrapper-masks')
+    for c in wrapped:
+        rr.ob('a socket is bound / connected through the wrapper that masks what the library says about the address', True, zmod, c, witness=U(c)[:80], key=f'attach-errors-masked|{U(c.args[0].value).split(".")[-1]}.{c.args[0].attr}')
 
 
 @rule('C15.R7', "a library that is handed the URI does not print it either: vidgear's WriteGear() and its helper module (which tests the output text as if it were a directory and warns with that text on a logger of "
